@@ -28,6 +28,17 @@ def protokeys(sel="/d"):
     return out
 
 
+# requests for the directory that do not return its listing: HTTP HEAD runs prepare() but never
+# getdirlist(); Gopher+ `!` (item information) runs neither
+PROBES = [("http-head", b"HEAD /d HTTP/1.0\r\n\r\n", False), ("https-head", b"HEAD /d HTTP/1.0\r\n\r\n", True),
+          ("gopherplus!", b"/d\t!\r\n", False), ("sgopherplus!", b"/d\t!\r\n", True)]
+PROBEIDX = {k: 100 + i for i, (k, _, _) in enumerate(PROBES)}
+
+
+def probekeys():
+    return {k: {"data": gen.lat(d), "tls": tls} for k, d, tls in PROBES}
+
+
 POOL = ["a.txt", "b.html", "c.gif", "notes.txt", "data.bin", "z.tar.gz", "read me.txt", "Index", "x.mp3",
         "café.txt".encode("utf-8").decode("latin-1"), "\xae.txt", "zz", "m.txt", "k.html"]
 DIRS = ["sub", "sub2", "Archive"]
@@ -61,7 +72,31 @@ class DirState:
     def mutation(self, rng):
         for _ in range(20):
             kind = rng.choice(["create", "create", "delete", "rename", "names", "names", "abstract", "abstract",
-                               "mkdir", "rmdir", "rewrite"])
+                               "mkdir", "rmdir", "rewrite", "inplace", "inplace", "inplace"])
+            if kind == "inplace":
+                # edit metadata IN PLACE: no directory entry is created, removed or renamed, so the
+                # directory's own mtime does not move
+                opts = []
+                if self.names:
+                    opts.append("names")
+                if self.abstracts:
+                    opts.append("abstract")
+                if self.files:
+                    opts.append("rewrite")
+                if not opts:
+                    continue
+                which = rng.choice(opts)
+                if which == "names":
+                    n = rng.choice(sorted(self.files | self.dirs)) if (self.files | self.dirs) else "a.txt"
+                    return "inplace-names", [{"do": "write", "path": "d/.names", "data": "Path=./%s\nName=%s %d\nNumb=%d\n" % (
+                        n, rng.choice(TITLES), rng.randrange(1000), rng.randrange(-2, 4))}]
+                if which == "abstract":
+                    n = rng.choice(sorted(self.abstracts))
+                    return "inplace-abstract", [{"do": "write", "path": "d/" + n + ".abstract",
+                                                 "data": "edited abstract %d of %s\n" % (rng.randrange(100000), n)}]
+                n = rng.choice(sorted(self.files))
+                return "inplace-rewrite", [{"do": "write", "path": "d/" + n, "data": "w" * rng.randrange(0, 9000),
+                                            "mtime": self.tick()}]
             if kind == "create":
                 free = [n for n in POOL if n not in self.files]
                 if not free:
@@ -149,6 +184,8 @@ def gen_history(rng, life, nops):
             ops.append({"op": "tick", "s": rng.choice(TICKS[life])})
         elif x < 0.59:
             ops.append({"op": "sleep", "ms": rng.randrange(20, 400)})
+        elif x < 0.68:
+            ops.append({"op": "probe", "key": rng.choice(PROBES)[0]})
         else:
             ops.append({"op": "list", "key": rng.choice(PROTOKEYS)[0]})
     return ops
@@ -172,6 +209,16 @@ def scripted(life):
     hs.append([L("gopher"), M(m1), L("http"), T(max(life - 1, 0)), L("gopherplus$"), T(1), L("gopher"), L("gopherplus+")])
     hs.append([L("http"), T(1), L("http"), T(1), L("http"), T(1), L("http"), M(m1), T(1), L("gopher"), T(1), L("gopher"), T(1), L("gopher")])
     hs.append([M(m1), L("sgopherplus$"), M(m2), L("sgopher"), T(life), L("sgopher"), M(m3), T(life + 1), L("gemini"), L("wap")])
+    P = lambda k: {"op": "probe", "key": k}
+    inplace = [{"do": "write", "path": "d/a.txt.abstract", "data": "a different abstract\n"}]
+    inplace2 = [{"do": "write", "path": "d/a.txt.abstract", "data": "yet another abstract\n"}]
+    # in-place metadata edit, then expiry
+    hs.append([L("gopher"), M(inplace), T(life), L("gopher"), M(inplace2), T(life + 1), L("http"), L("gopherplus$")])
+    # requests that never reach getdirlist() between an expiry + mutation and the next listing
+    hs.append([L("http"), M(m1), T(life), P("http-head"), L("gopher"), M(m2), T(life + 1), P("gopherplus!"), L("http"),
+               M(inplace), T(life), P("https-head"), T(max(life - 1, 0)), L("wap"), T(1), L("wap")])
+    hs.append([L("gopher"), P("http-head"), T(max(life - 1, 0)), P("http-head"), T(1), M(m3), L("gopher"),
+               T(life), P("sgopherplus!"), P("http-head"), P("http-head"), T(max(life - 1, 0)), L("gemini")])
     half = max(life // 2, 1)
     hs.append([L("gopher"), T(half), L("gopher"), M(m1), T(max(life - half, 0)), L("gopher"), L("http"), T(half), M(m2), L("gopherplus$"),
                T(max(life - half, 0)), L("wap")])
@@ -179,7 +226,8 @@ def scripted(life):
 
 
 def history_job(life, ops):
-    return {"op": "c10_history", "tree": initial_tree(), "life": life, "ops": ops, "protokeys": protokeys()}
+    return {"op": "c10_history", "tree": initial_tree(), "life": life, "ops": ops, "protokeys": protokeys(),
+            "probekeys": probekeys()}
 
 
 # ----------------------------------------------------------------------------
@@ -194,9 +242,9 @@ def digest_events(job, results):
         if r["op"] in ("init", "mut"):
             snaps.append(r["refs"])
             events.append({"kind": "mut", "tv": r["now_ms"] + 1000 * r["shift_s"], "snap": len(snaps) - 1})
-        elif r["op"] == "list":
+        elif r["op"] in ("list", "probe"):
             e = dict(r)
-            e["kind"] = "list"
+            e["kind"] = r["op"]
             e["tv"] = r["now_ms"] + 1000 * r["shift_s"]
             events.append(e)
             if r["opened_w"] and r["after"] is not None and r["after"][0] // 10 ** 9 != r["now_ms"] // 1000:
@@ -224,6 +272,8 @@ def coq_case(life, events, snaps, rep=True):
             kops.append("KTick %d%%Z" % d)
         if e["kind"] == "mut":
             kops.append("KMut %d" % e["snap"])
+        elif e["kind"] == "probe":
+            kops.append("KProbe %d" % PROBEIDX[e["key"]])
         else:
             kops.append("KList %d" % KEYIDX[e["key"]])
             cands = [i for i, refs in enumerate(snaps) if refs[e["key"]]["hash"] == e["hash"]]
@@ -253,6 +303,12 @@ def oracle(life, events, snaps):
             continue
         t = e["tv"]
         key = e["key"]
+        if e["kind"] == "probe":
+            if e["crashed"] or e["len"] == 0:
+                bad.append(("unanswered", i, "non-listing request %s got no reply (exception %r, log %r)" % (key, e["exc"], e["log"])))
+            if e["opened_w"]:
+                last_write = (current, t)       # (a request that saves without listing would be a writer)
+            continue
         if e["crashed"]:
             bad.append(("unanswered", i, "listing request got no reply (exception %r, log %r)" % (e["exc"], e["log"])))
             continue
@@ -342,6 +398,10 @@ def evaluate(chk, done, tier):
                 current = e["snap"]
                 stats["mutations"] += 1
                 continue
+            if e["kind"] == "probe":
+                stats["non_listing_requests"] = stats.get("non_listing_requests", 0) + 1
+                chk.count((hi, e["tv"], e["key"]), nontrivial=(e["before"] is not None))
+                continue
             stats["listings"] += 1
             c = cls_of(e)
             if c == 0:
@@ -394,8 +454,9 @@ def run(tier):
                              for e in e0 if e["kind"] == "list"]})
     chk.coverage["rule"] = ("histories of 5-40 operations (create/delete/rename/rewrite files, mkdir/rmdir, edit .names and "
                             "<file>.abstract; whole-second clock advances on both sides of the lifetime realised with os.utime on "
-                            "the cache file, sub-second ones by sleeping; listings of the directory through 10 protocol syntaxes "
-                            "incl. Gopher+ `$` writers followed by other readers) for lifetimes 0, 2, 180 on real scratch "
+                            "EVERY timestamp of the tree, sub-second ones by sleeping; listings of the directory through 10 protocol "
+                            "syntaxes incl. Gopher+ `$` writers followed by other readers; non-listing requests HTTP HEAD and "
+                            "Gopher+ `!` on the directory) for lifetimes 0, 2, 180 on real scratch "
                             "directories; each response mapped to the set of directory snapshots whose cacheless listing it "
                             "equals and compared with fold_left step evaluated in Coq; non-trivial = a hit, or a miss that "
                             "replaced an existing cache file")
@@ -406,7 +467,8 @@ def run(tier):
         "pickle round trip of an entry list is the identity (Section hypothesis of the theorems; exercised by every cache hit in K)",
         "mtime of the cache file = time of the write, to the whole second (checked per write; histories where the check fails are re-run)",
         "the clock does not run backwards (op_ok: Tick dt with 0 <= dt)",
-        "advancing the clock by k whole seconds is equivalent to ageing the cache file by k seconds (os.utime); no clock hook",
+        "advancing the clock by k whole seconds is equivalent to moving every mtime of the tree k seconds into the past "
+        "(os.utime on all files and directories; ctimes cannot be set); no clock hook; absolute Mod-Date values masked",
         "the directory's own title/abstract/mtime are read afresh by every request and are not part of the cached entry list "
         "(HTTP Last-Modified masked; the directory's own .abstract is not mutated)",
         "cacheless reference listings come from the same code with an unwritable cache path",
